@@ -9,7 +9,7 @@ RULE = ("cases = every point of the integer grid (radii, heights 1..G; distances
         "frustum object that was asked about other spheres before) (axis directions incl. oblique and generic, "
         "frustum given from either end, offsets) and one of 3 length units (volumes scale by unit^3); non-trivial = a two-object case; "
         "distinct by (kind, parameters)")
-UNITS = [1.0, 0.5, 0.37, 1e-6, 2.5e4]          # the last two only in the extreme-units stage (metres for micrometres; very large solids)
+UNITS = [1.0, 0.5, 0.37, 1e-6, 2.5e4, 40.0]          # the last two only in the extreme-units stage (metres for micrometres; very large solids)
 DIRS = [(1, 0, 0), (0, 0, -1), (2 / 3, 2 / 3, 1 / 3), (0.6, 0.8, 0), (0.3, -0.5, 0.81), (0, 1, 0), (-2 / 7, 3 / 7, 6 / 7)]
 ORGS = [(0, 0, 0), (5, -3, 2), (0, 0, 0), (-11, 4, 0.5), (100, 200, -300), (1, 1, 1), (0, 0, 0)]
 # far placements (atlas-sized coordinates): the volume of a solid does not depend on where it sits
@@ -29,6 +29,14 @@ def execute(c):
         o = rr.uniform(-500, 500, size=3)
     rev = c["place"] >= 5
     k, a, b, cc = c["k"], c["a"] * u, c["b"] * u, c["c"] * u
+    if "int" in c:
+        # centres given as narrow integer arrays (voxel indices): axis-aligned placement, unit 40, so that every coordinate is an integer
+        it = [np.int16, np.int32, np.int64][c["int"]]
+        d = np.array(DIRS[c["place"]], dtype=np.int64)
+        o = np.array(ORGS[c["place"]], dtype=np.int64)
+        mk = lambda v: np.array(v, dtype=it)
+        cc = int(round(cc))
+        o, d = mk(o), mk(d)
     if k == "sphere":
         v = VolSphere(o, a).get_volume()
     elif k == "cap":
@@ -73,6 +81,9 @@ def run(ctx):
     ext = [dict(c, unit=3 + k % 2) for k, c in enumerate(cases)][:: (2 if ctx.tier == "quick" else 1)]
     p = ctx.write_cases("extreme-units", ext)
     ctx.run_cases("extreme-units", ext, p, execute, "Judge_VolPrim", keyfn, nontrivial)
+    ints = [dict(c, unit=5, place=[0, 1, 5][k % 3], int=k % 3) for k, c in enumerate(cases) if c["k"] not in ("sphere", "cap")][:: (2 if ctx.tier == "quick" else 1)]
+    p = ctx.write_cases("integer-centres", ints)
+    ctx.run_cases("integer-centres", ints, p, execute, "Judge_VolPrim", keyfn, nontrivial)
     rnd = [dict(c, rnd=ctx.seed * 100003 + 7 * k + j) for k, c in enumerate(cases) if c["k"] not in ("sphere", "cap") for j in range(1 if ctx.tier == "quick" else 6)]
     if ctx.tier == "quick":
         rnd = rnd[::2]
